@@ -28,8 +28,9 @@ A == INSTANCE RtFs WITH sc <- sc1, pc <- pc1, obs <- obs1, json <- json1, flushe
 B == INSTANCE RtFs WITH sc <- sc2, pc <- pc2, obs <- obs2, json <- json2, flushed <- flushed2,
                         status <- status2, fault <- fault2, copyfail <- copyfail2, moveok <- moveok2
 
-Init2 == /\ \E s \in A!Scenarios : A!Init(s)
+Init2 == /\ \E s \in A!Scenarios : A!Init(s) /\ s.stale = 0         \* (stale earlier streams: RtFs alone)
          /\ \E s \in B!Scenarios : B!Init(s) /\ s.mode = sc1.mode      \* OVNI_TMPDIR is per process
+                                   /\ s.stale = 0
                                    /\ (Small => (s.chunk = sc1.chunk /\ s.rdorder = sc1.rdorder
                                                  /\ s.flushes \in {<<3>>, <<2, 3>>}
                                                  /\ s.accept \subseteq ({8 + A!Total(s.flushes)} \cup 9..11)))
